@@ -218,6 +218,70 @@ def case(spec):
                       '0' + label)
             res.sigs.append('opus|%d|%s|%d|%d' % (nv, label, overshoot, rem))
             res.sample = {'kind': kind, 'volume': label, 'overshoot': overshoot, 'entry': target.brief()}
+        elif kind == 'hdfs':
+            # a catalogue whose HDFS flag makes the catalogue's own sector count (0x3FF, bit 9 from the top bit of the
+            # title) larger than the count the prober uses (0x1FF): commands that walk the whole file system
+            # (extract-unused) then ask the surface for sectors beyond its end
+            ctxk = ['mmb-slot', 'ssd-two-sided', 'dsd-side'][idx % 3]
+            tracks, spt = 80, 10
+            nsec = 800
+            surfs = []
+            for sd in range(2):
+                ents = [dm.Entry('$', 'LOW', False, 0, 0, 300, 2, rng.randbytes(300))]
+                cat = dm.Cat(b'HD%d' % sd, 0, 1, 0, 800, dm.catalogue_order(ents))
+                surfs.append(dm.Surface('acorn', tracks, spt, [dm.Volume(None, 0, nsec, 0, cat)], rng.getrandbits(16), sd))
+            imgs = [bytearray(sf.image()) for sf in surfs]
+            a = imgs[0]
+            a[0] |= 0x80                       # HDFS: bit 9 of the total from the top bit of the first title byte
+            a[256 + 6] = (a[256 + 6] & 0xF0) | 0x08 | 0x01
+            a[256 + 7] = 0xFF
+            if ctxk == 'mmb-slot':
+                k = rng.choice([0, 3, 254])
+                path = os.path.join(tmp, 'h.mmb')
+                dm.mmb_file(path, {k: (0x0F, bytes(a)), k + 1: (0x0F, bytes(imgs[1]))})
+                raw = open(path, 'rb').read()
+                inside = [(32 + 800 * k, 32 + 800 * k + 800)]
+                drive, pre = k, ['--drive-first']
+                files = {'slots.txt': b'HDFS-flagged catalogue in slot %d' % k}
+            elif ctxk == 'ssd-two-sided':
+                raw = bytes(a) + bytes(imgs[1])
+                path = os.path.join(tmp, 'h.ssd')
+                write_file(path, raw)
+                inside = [(0, 800)]
+                drive, pre = 0, []
+                files = {'h.ssd': raw}
+            else:
+                tb = spt * 256
+                raw = b''.join(bytes(a[t * tb:(t + 1) * tb]) + bytes(imgs[1][t * tb:(t + 1) * tb]) for t in range(tracks))
+                path = os.path.join(tmp, 'h.dsd')
+                write_file(path, raw)
+                inside = [((2 * t) * spt, (2 * t) * spt + spt) for t in range(tracks)]
+                drive, pre = 0, []
+                files = {'h.dsd': raw}
+            outside = outside_blocks(raw, inside)
+            dest = os.path.join(tmp, 'hx')
+            os.mkdir(dest)
+            for cmd in (['extract-unused', dest], ['sector-map', str(drive)], ['free', str(drive)], ['space', str(drive)]):
+                r_ = dfs(dfsbin, path, cmd, pre=pre + (['--drive', str(drive)] if cmd[0] == 'extract-unused' else []), trace=True)
+                res.execs += 1
+                if screen(res, r_, PROP, cmd[0], files):
+                    continue
+                res.events += 1
+                check_hooks(res, r_, files, 'hdfs-' + ctxk)
+            leaked = None
+            for f in os.listdir(dest):
+                data = open(os.path.join(dest, f), 'rb').read()
+                for off in range(0, len(data), 256):
+                    kk = outside.get(data[off:off + 256])
+                    if kk is not None:
+                        leaked = (f, kk)
+                        break
+            if leaked:
+                res.violation('outside-bytes:hdfs-' + ctxk, 'extract-unused wrote the contents of container sector %d '
+                              '(outside the surface) into %s' % (leaked[1], leaked[0]), {'context': ctxk}, files,
+                              [dfsbin] + pre + ['--file', path, 'extract-unused', dest])
+            res.sigs.append('hdfs|%s|%d' % (ctxk, idx))
+            res.sample = {'kind': kind, 'context': ctxk}
         elif kind == 'flux':
             from .. import flux as fx
             enc = rng.choice(['fm', 'mfm'])
@@ -341,7 +405,7 @@ def main(tier, seed, scale=1.0):
     BIN['san'] = build.ensure('san')
     q = tier == 'quick'
     counts = {'opus': 96 if q else 1800, 'inter': 36 if q else 600, 'single': 24 if q else 400, 'mmb': 12 if q else 120,
-              'flux': 36 if q else 600}
+              'flux': 36 if q else 600, 'hdfs': 12 if q else 120}
     specs = []
     for k, n in counts.items():
         specs += [(seed, k, i, tier) for i in range(max(6, int(n * scale)))]
